@@ -10,7 +10,7 @@ from ..report import Report
 from ..rules.budget import check_budget_loops
 from ..rules.dispatch import check_dispatch, docstring_options, argparse_choices, check_forwarding
 from ..callgraph import Resolver
-from ..util import callee_last
+from ..util import callee_last, inline_temps
 
 SP = 'fggs.sum_product'
 
@@ -244,6 +244,28 @@ def check_rewrites(rep: Report, prog: Program) -> None:
             l_, op_, r_ = norm(n.test.left), n.test.ops[0], norm(n.test.comparators[0])
             if (isinstance(op_, (ast.Gt, ast.GtE)) and l_ == val and r_ == V) or (isinstance(op_, (ast.Lt, ast.LtE)) and l_ == V and r_ == val):
                 maxvars.add(V)
+    # what the counter counts: rhs edges whose label lies *in the component* (`e.label in comp`) -- the recursive ones.  A count of
+    # all nonterminal edges classifies a non-recursive nonterminal with a nonterminal child as recursive: it is then iterated from
+    # zero and stopped by the tolerance, instead of being evaluated exactly in one step
+    from ..util import parents as _parents
+    pm_ = _parents(f)
+    comp_vars = {norm(l.target) for l in own_nodes(f.node) if isinstance(l, ast.For) and any(isinstance(x, ast.Call) and callee_last(x) == 'scc' for x in ast.walk(inline_temps(f.node, l.iter)))}
+    incs = [a for a in own_nodes(f.node) if isinstance(a, ast.AugAssign) and isinstance(a.op, ast.Add) and isinstance(a.target, ast.Name)
+            and isinstance(a.value, ast.Constant) and a.value.value == 1 and a.target.id not in maxvars]
+    for a in incs:
+        guarded = False
+        ch, p_ = a, pm_.get(id(a))
+        while p_ is not None and not isinstance(p_, (ast.For, ast.While, ast.FunctionDef)):
+            if isinstance(p_, ast.If):
+                t_ = p_.test
+                if isinstance(t_, ast.Compare) and len(t_.ops) == 1 and norm(t_.comparators[0]) in comp_vars and norm(t_.left).endswith('.label'):
+                    if (isinstance(t_.ops[0], ast.In) and ch in p_.body) or (isinstance(t_.ops[0], ast.NotIn) and ch in p_.orelse):
+                        guarded = True
+            ch, p_ = p_, pm_.get(id(p_))
+        rep.ob(rule, f.fq(), f"{norm(a)}: counts the rhs edges whose label is in the component", f.loc(a), guarded,
+               'incremented under `<edge>.label in <component>`' if guarded else
+               f"`{norm(a)}` is not guarded by a membership test of the edge's label in the component: edges to nonterminals outside the component are counted as recursive")
+    rep.floor(rule + ' counter increments', len(incs), 1)
     for st in stores:
         v = st.value
         construct = norm(st)
